@@ -714,7 +714,10 @@ def tr_model(repo, st):
                 if _int(v) is not None:
                     sc.vars[t.id] = ("int", _int(v))
                     return
-                if src == "full_output = super().__call__(*full_inputs, **kwargs)":
+                # the joint prior, evaluated with the model's own (or, since 975fbb8, the copied) mean / kernel modules:
+                # either way the hyper-parameters of replica b
+                if src in ("full_output = super().__call__(*full_inputs, **kwargs)",
+                           "full_output = super(ExactGP, new_model).__call__(*full_inputs, **kwargs)"):
                     if sc.vars.get("kwargs") != ("kwargs", None):
                         _fail(s, "the prior is called with the fantasy noise still in kwargs")
                     fi = sc.vars["full_inputs"]
